@@ -22,7 +22,6 @@ import (
 	"github.com/thushan/olla/internal/adapter/registry"
 	"github.com/thushan/olla/internal/config"
 	"github.com/thushan/olla/internal/core/domain"
-	"github.com/thushan/olla/internal/util/pattern"
 	"github.com/thushan/olla/internal/verif/h/lib/explore"
 	"github.com/thushan/olla/internal/verif/h/lib/hutil"
 	"github.com/thushan/olla/internal/verif/h/lib/report"
@@ -574,12 +573,35 @@ func e1b(kind string) {
 
 // ---------------------------------------------------------------- E2 filters
 
+// refGlob is the reference for filter patterns, written independently of the code under test: '*' stands for any
+// run of characters (also none), everything else matches itself, letters without regard to case.
+func refGlob(name, pat string) bool {
+	n, p := []rune(strings.ToLower(name)), []rune(strings.ToLower(pat))
+	var m func(i, j int) bool
+	m = func(i, j int) bool {
+		if j == len(p) {
+			return i == len(n)
+		}
+		if p[j] == '*' {
+			for k := i; k <= len(n); k++ {
+				if m(k, j+1) {
+					return true
+				}
+			}
+			return false
+		}
+		return i < len(n) && n[i] == p[j] && m(i+1, j+1)
+	}
+	return m(0, 0)
+}
+
 func e2() {
 	if report.Shard != 0 {
 		return
 	}
-	namesL := []string{"a", "a::b", "b", "A", "x", "b::a", "a::"}
-	pats := []string{"a", "a*", "b::a*", "*b", "*a*", "a::b", "*", "::a*", "a::*"}
+	namesL := []string{"a", "a::b", "b", "A", "x", "b::a", "a::", "xB", "Ab"}
+	// patterns in lower and upper case: matching is documented as case-insensitive, in every form of pattern
+	pats := []string{"a", "a*", "b::a*", "*b", "*a*", "a::b", "*", "::a*", "a::*", "*B", "A*", "*A*", "B", "*::B"}
 	type q struct{ name, pat string }
 	var qs []q
 	for _, n := range namesL {
@@ -592,7 +614,7 @@ func e2() {
 	}, x q) bool {
 		return f.Matches(&domain.FilterConfig{Include: []string{x.pat}}, x.name)
 	}
-	truth := func(x q) bool { return pattern.MatchesGlob(x.name, x.pat) }
+	truth := func(x q) bool { return refGlob(x.name, x.pat) }
 	reported := false
 	judge := func(seq []q, got bool) {
 		last := seq[len(seq)-1]
@@ -605,7 +627,7 @@ func e2() {
 				s = append(s, fmt.Sprintf("Matches(%q,[%q])", x.name, x.pat))
 			}
 			res.Violate("filter-answer-depends-on-history", map[string]any{"part": "E2"},
-				fmt.Sprintf("lookups on one GlobFilter: %s => last answer %v; a fresh filter and pattern.MatchesGlob say %v", strings.Join(s, " then "), got, truth(last)),
+				fmt.Sprintf("lookups on one GlobFilter: %s => last answer %v; the pattern means %v", strings.Join(s, " then "), got, truth(last)),
 				map[string]any{"engine": "enum", "lookups": s})
 		}
 	}
@@ -657,12 +679,12 @@ func e2() {
 			for _, n := range namesL {
 				want := len(inc) == 0
 				for _, p := range inc {
-					if p == "*" || pattern.MatchesGlob(n, p) {
+					if p == "*" || refGlob(n, p) {
 						want = true
 					}
 				}
 				for _, p := range exc {
-					if pattern.MatchesGlob(n, p) {
+					if refGlob(n, p) {
 						want = false
 					}
 				}
